@@ -58,6 +58,25 @@ func threshPolicy(k *chain.Keys) types.SpendPolicy {
 	return types.PolicyThreshold(2, []types.SpendPolicy{types.PolicyPublicKey(k.Pub[0]), types.PolicyPublicKey(k.Pub[1]), types.PolicyPublicKey(k.Pub[2])})
 }
 
+// nestedPolicy: a threshold inside a threshold, the nested one first or last (2-of-2 of {pk(key 1), 1-of-2 of {pk(key 0),
+// pk(key 2)}}).
+func nestedPolicy(k *chain.Keys, nestedFirst bool) types.SpendPolicy {
+	inner := types.PolicyThreshold(1, []types.SpendPolicy{types.PolicyPublicKey(k.Pub[0]), types.PolicyPublicKey(k.Pub[2])})
+	if nestedFirst {
+		return types.PolicyThreshold(2, []types.SpendPolicy{inner, types.PolicyPublicKey(k.Pub[1])})
+	}
+	return types.PolicyThreshold(2, []types.SpendPolicy{types.PolicyPublicKey(k.Pub[1]), inner})
+}
+
+// nestedSpend presents nestedPolicy with the inner threshold satisfied by key 0 (key 2's branch opaque).
+func nestedSpend(k *chain.Keys, nestedFirst bool) types.SpendPolicy {
+	inner := types.PolicyThreshold(1, []types.SpendPolicy{types.PolicyPublicKey(k.Pub[0]), types.PolicyOpaque(types.PolicyPublicKey(k.Pub[2]))})
+	if nestedFirst {
+		return types.PolicyThreshold(2, []types.SpendPolicy{inner, types.PolicyPublicKey(k.Pub[1])})
+	}
+	return types.PolicyThreshold(2, []types.SpendPolicy{types.PolicyPublicKey(k.Pub[1]), inner})
+}
+
 func hashPolicy() types.SpendPolicy { return types.PolicyHash(sha256.Sum256(preimage[:])) }
 
 func lockPolicy(k *chain.Keys) types.SpendPolicy {
@@ -77,6 +96,8 @@ func alloc(k *chain.Keys) chain.GenesisAlloc {
 	add(threshPolicy(k).Address(), 2)
 	add(hashPolicy().Address(), 2)
 	add(lockPolicy(k).Address(), 2)
+	add(nestedPolicy(k, true).Address(), 2)
+	add(nestedPolicy(k, false).Address(), 2)
 	add(k.Addr(chain.AddrV1), 6)
 	add(k.Addr(chain.AddrV2), 6)
 	add(k.Addr(chain.AddrFnd), 2)
@@ -410,6 +431,13 @@ func templates(k *chain.Keys) []template {
 			of[1] = types.PolicyOpaque(of[1])
 			return v2base(w, p.Address(), types.SatisfiedPolicy{Policy: types.PolicyThreshold(2, of)}, []int{0, 2})
 		}, none},
+		{"v2 threshold with a nested threshold first", func(w *chain.World) (chain.Use, bool) {
+			// signatures in the order the policy is walked: key 0 (inside the nested threshold), then key 1
+			return v2base(w, nestedPolicy(k, true).Address(), types.SatisfiedPolicy{Policy: nestedSpend(k, true)}, []int{0, 1})
+		}, none},
+		{"v2 threshold with a nested threshold last", func(w *chain.World) (chain.Use, bool) {
+			return v2base(w, nestedPolicy(k, false).Address(), types.SatisfiedPolicy{Policy: nestedSpend(k, false)}, []int{1, 0})
+		}, none},
 		{"v2 hash lock", func(w *chain.World) (chain.Use, bool) {
 			return v2base(w, hashPolicy().Address(), types.SatisfiedPolicy{Policy: hashPolicy(), Preimages: [][32]byte{preimage}}, nil)
 		}, func(path string) bool {
@@ -708,6 +736,36 @@ func probeTemplate(c *vf.Ctx, w *chain.World, tp template) {
 				check("make a satisfied branch opaque (same address)")
 				*sp = old
 			}
+			// a co-signer withdrawn: every top-level public-key branch in turn made opaque (same address) AND its signature
+			// removed - the threshold is then one short, whatever nested thresholds beside it contributed
+			if th, ok := old.Policy.Type.(types.PolicyTypeThreshold); ok {
+				var pkLeaves func(p types.SpendPolicy) int
+				pkLeaves = func(p types.SpendPolicy) int {
+					switch pt := p.Type.(type) {
+					case types.PolicyTypePublicKey:
+						return 1
+					case types.PolicyTypeThreshold:
+						n := 0
+						for _, q := range pt.Of {
+							n += pkLeaves(q)
+						}
+						return n
+					}
+					return 0
+				}
+				before := 0
+				for j := range th.Of {
+					if _, isPK := th.Of[j].Type.(types.PolicyTypePublicKey); isPK && before < len(old.Signatures) {
+						of := append([]types.SpendPolicy(nil), th.Of...)
+						of[j] = types.PolicyOpaque(of[j])
+						sp.Policy = types.PolicyThreshold(th.N, of)
+						sp.Signatures = append(append([]types.Signature(nil), old.Signatures[:before]...), old.Signatures[before+1:]...)
+						check(fmt.Sprintf("co-signer %d withdrawn (branch made opaque, signature removed)", j))
+						*sp = old
+					}
+					before += pkLeaves(th.Of[j])
+				}
+			}
 			// drop / duplicate / reorder signatures are part of the reflection walk; add a surplus valid signature
 			if len(old.Signatures) > 0 {
 				sp.Signatures = append(append([]types.Signature(nil), old.Signatures...), old.Signatures[0])
@@ -983,6 +1041,83 @@ func stable(p string) string {
 // transaction pays a victim; a second one spends that output (a) honestly (control), (b) with a third party's policy and
 // signature against the true parent, (c) with the parent re-stated under the third party's address plus that party's
 // policy and signature, (d) likewise for a siafund output below the ephemeral-output height where that is legal.
+// renewalAfterRotation: "every v2 ... renewal is signed by the renter and host keys of the contract as it currently
+// stands". A revision earlier in the block rotates the renter key; a later transaction of the block renews the
+// contract (a) signed by the keys as they now stand - must be accepted, (b) signed by the rotated-out key - must be
+// rejected. (Revisions are verified against the in-block state of the contract; resolutions against the pre-block
+// parent: both expectations fail on the unchanged tree - recorded known findings.)
+func renewalAfterRotation(c *vf.Ctx, w *chain.World) {
+	k := w.Keys
+	h := w.ChildHeight()
+	if h < w.Net.HardforkV2.AllowHeight {
+		return
+	}
+	var e types.V2FileContractElement
+	found := false
+	for _, id := range chain.SortedIDs(w.Store.V2FC) {
+		x := w.Store.V2FC[types.FileContractID(id)]
+		if x.V2FileContract.ProofHeight >= h && x.V2FileContract.RevisionNumber < 1<<60 {
+			e, found = x.Copy(), true
+			break
+		}
+	}
+	f, ok := findSC(w, k.Addr(chain.AddrV2))
+	if !found || !ok {
+		return
+	}
+	cur := e.V2FileContract
+	rot := cur
+	rot.RevisionNumber++
+	newRenter := 2
+	if cur.RenterPublicKey == k.Pub[2] {
+		newRenter = 0
+	}
+	rot.RenterPublicKey = k.Pub[newRenter]
+	w.SignContract(&rot, keyIndex(k, cur.RenterPublicKey), keyIndex(k, cur.HostPublicKey))
+	first := chain.Use{Name: "rotate", V2: &types.V2Transaction{FileContractRevisions: []types.V2FileContractRevision{{Parent: e.Copy(), Revision: rot}}}}
+	name := "v2 contract renewal after a key rotation earlier in the same block"
+	tc := tcase{Network: w.Spec.Name, Height: h, Template: name, Seed: c.Seed}
+	validate := func(u chain.Use) (bool, any) {
+		b, bs := w.BlockOfUses(u)
+		var err error
+		p, _ := vf.Try(func() { err = w.Validate(b, bs) })
+		c.Count("evaluations", 1)
+		c.Count("transitions", 1)
+		return err == nil && p == nil, p
+	}
+	// control: the rotation alone is accepted
+	if ok, _ := validate(first); !ok {
+		return
+	}
+	// (a) signed by the keys as the contract now stands
+	now := e.Copy()
+	now.V2FileContract = rot
+	if ua, ok := w.UseV2Renew(now, f); ok {
+		ua.V2.FileContractResolutions[0].Parent = e.Copy() // the accumulator holds the pre-block form
+		w.SignV2(ua.V2)
+		ua.Before = []chain.Use{first}
+		c.Distinct(w.Spec.Name, h, name, "current keys")
+		if acc, p := validate(ua); p == nil && !acc {
+			c.Violate("C03|untampered-rejected|"+name, fmt.Sprintf("[%s height %d] renewal signed by the renter and host keys of the contract as it stands after the rotation earlier in the block was rejected", w.Spec.Name, h), tc)
+		} else if acc {
+			c.Count("renewal_after_rotation_current_keys_accepted", 1)
+		}
+	}
+	// (b) signed by the rotated-out renter key
+	if ub, ok := w.UseV2Renew(e, f); ok {
+		ub.Before = []chain.Use{first}
+		c.Distinct(w.Spec.Name, h, name, "rotated-out keys")
+		t := tc
+		t.Tamper = "renewal signed by the rotated-out renter key"
+		if acc, p := validate(ub); p == nil && acc {
+			c.Violate("C03|tampered-accepted|"+name+"|renewal signed by the rotated-out renter key", fmt.Sprintf("[%s height %d] a renewal signed by the renter key that a revision earlier in the block had rotated out was ACCEPTED", w.Spec.Name, h), t)
+		} else if !acc {
+			c.Count("renewal_after_rotation_old_keys_rejected", 1)
+		}
+	}
+	c.Count("renewal_after_rotation_probes", 1)
+}
+
 func ephemeralThief(c *vf.Ctx, w *chain.World) {
 	k := w.Keys
 	h := w.ChildHeight()
@@ -1173,11 +1308,12 @@ func run(c *vf.Ctx) {
 			}
 			unauthorizedFoundation(c, w)
 			ephemeralThief(c, w)
+			renewalAfterRotation(c, w)
 			coveredBinding(c, w)
 		})
 		c.Count("traces_validated_against_impl", 1)
 	})
-	need := []string{"untampered_accepted", "tampered_rejected", "era_replay_rejected", "unauthorized_foundation_rejected", "partial_sighash_binding_checked", "ephemeral_thief_rejected", "retarget_probes"}
+	need := []string{"untampered_accepted", "tampered_rejected", "era_replay_rejected", "unauthorized_foundation_rejected", "partial_sighash_binding_checked", "ephemeral_thief_rejected", "retarget_probes", "renewal_after_rotation_probes"}
 	for _, tp := range tps {
 		need = append(need, "template:"+tp.name)
 	}
@@ -1195,6 +1331,15 @@ func replay(c *vf.Ctx, raw json.RawMessage) {
 	keys := chain.NewKeys(tc.Seed)
 	if tc.Template == "era-replay" {
 		eraReplay(c, chain.Spec(tc.Network), keys)
+		return
+	}
+	if tc.Template == "v2 contract renewal after a key rotation earlier in the same block" {
+		worlds(c, chain.Spec(tc.Network), keys, tc.Height, func(w *chain.World) {
+			if w.ChildHeight() == tc.Height {
+				c.Count("states", 1)
+				renewalAfterRotation(c, w)
+			}
+		})
 		return
 	}
 	for _, tp := range templates(keys) {
